@@ -510,6 +510,35 @@ def check_buffer_ops(ctx, tu, sy, f, counts):
                 return 'all'
             return None
 
+        def classify_return(e, st):
+            """(what a returned expression hands out: 'contents' | 'stale' | 'other' | None = not recognised, moved the buffer out?)
+            holders / stale also contain the call expressions of followed helpers and closures that returned such a value"""
+            holders, stale = st[1], st[8]
+            x = tu.strip(e) if e is not None else None
+            if x is None:
+                return 'other', False
+
+            def of(idv):
+                return 'contents' if idv in holders else 'stale' if idv in stale else None
+            if x.get('kind') == 'CXXConstructExpr' and len(tu.kids(x)) == 1:
+                a0 = tu.kids(x)[0]
+                if is_buffer(tu, sy, a0, fld):
+                    return 'contents', is_move(tu, sy, x)
+                v = var_of(a0)
+                a1 = tu.strip(sy.unwrap_move(a0))
+                if v is not None:
+                    return of(v) or 'other', False
+                if a1 is not None and of(a1.get('id')):
+                    return of(a1['id']), False
+            v = var_of(x)
+            if v is not None:
+                return of(v) or 'other', False
+            if of(x.get('id')):
+                return of(x['id']), False
+            if sy.mentions_field(x, fld):
+                return None, False
+            return 'other', False
+
         def transfer(blk, i, e, st):
             bufst, holders, fresh, ret, locks, known, epoch, taints, stale, branched = st
             ev = sy.event(e)
@@ -576,27 +605,18 @@ def check_buffer_ops(ctx, tu, sy, f, counts):
                         keep.add((var, t))
                     return [(bufst, holders, fresh, ret, locks, known, epoch, frozenset(keep), stale, branched)]
             if k == 'ReturnStmt':
-                if inl.depth > 0:
-                    return [st]             # return of a followed helper, not of consume()
                 ks = tu.kids(n)
-                x = tu.strip(ks[0]) if ks else None
-
-                def of_var(v):
-                    return 'contents' if v in holders else 'stale' if v in stale else 'other'
-                if x is not None and x.get('kind') == 'CXXConstructExpr' and len(tu.kids(x)) == 1:
-                    a0 = tu.kids(x)[0]
-                    if is_buffer(tu, sy, a0, fld):
-                        return [('empty' if is_move(tu, sy, x) else bufst, holders, fresh, 'contents', locks, known, epoch, taints, stale,
-                                 branched)]
-                    v = var_of(a0)
-                    if v is not None:
-                        return [(bufst, holders, fresh, of_var(v), locks, known, epoch, taints, stale, branched)]
-                v = var_of(x) if x is not None else None
-                if v is not None:
-                    return [(bufst, holders, fresh, of_var(v), locks, known, epoch, taints, stale, branched)]
-                if x is not None and sy.mentions_field(x, fld):
-                    found.und(R2, 'return expression uses the buffer in a form that is not modelled', n)
-                return [(bufst, holders, fresh, 'other', locks, known, epoch, taints, stale, branched)]
+                kind, moved = classify_return(ks[0] if ks else None, st)
+                if kind is None:
+                    if inl.depth == 0:
+                        found.und(R2, 'return expression uses the buffer in a form that is not modelled', n)
+                    kind = 'other'
+                if moved:
+                    bufst = 'empty'
+                if inl.depth > 0:
+                    # return of a followed helper / closure: its value reaches consume() through the call (see ConsumeHooks)
+                    return [(bufst, holders, fresh, ret, locks, known, epoch, taints, stale, branched)]
+                return [(bufst, holders, fresh, kind, locks, known, epoch, taints, stale, branched)]
             if k == 'CallExpr' and tu.sd(n).get('q') == 'std::swap':
                 args = tu.kids(n)[1:]
                 if len(args) == 2:
@@ -670,9 +690,17 @@ def check_buffer_ops(ctx, tu, sy, f, counts):
 
         class ConsumeHooks(C12Hooks):
             def ret_value(self, e, st):
+                kind, _moved = classify_return(e, st)
+                if kind in ('contents', 'stale'):
+                    return ('cls', kind)
                 return taint_of(e, st[7])
 
             def post_call(self, n, cf, st, rv):
+                if isinstance(rv, tuple) and rv[0] == 'cls':
+                    # the call expression stands for the vector the helper / closure returned
+                    if rv[1] == 'contents':
+                        return [(st[0], frozenset(set(st[1]) | {n['id']})) + st[2:]]
+                    return [st[:8] + (frozenset(set(st[8]) | {n['id']}),) + st[9:]]
                 if rv is not None:
                     return [st[:7] + (frozenset(set(st[7]) | {(n['id'], rv)}),) + st[8:]]
                 return [st]
